@@ -27,25 +27,27 @@ fn atoms() -> Vec<Re> {
     vec![Re::Lit(b'a'), Re::Lit(b'b'), Re::Lit(b'/'), Re::Dot, Re::Set, Re::NSet]
 }
 
-/// all ASTs with exactly n nodes
-fn asts(n: usize, memo: &mut Vec<Vec<Re>>) -> Vec<Re> {
+/// all ASTs with exactly n nodes over the given atoms; `small` = only ?, * and the two binary operators
+fn asts_over(n: usize, atoms: &[Re], small: bool, memo: &mut Vec<Vec<Re>>) -> Vec<Re> {
     if memo.len() > n && !memo[n].is_empty() {
         return memo[n].clone();
     }
     let mut out = vec![];
     if n == 1 {
-        out = atoms();
+        out = atoms.to_vec();
     } else if n >= 2 {
-        for x in asts(n - 1, memo) {
+        for x in asts_over(n - 1, atoms, small, memo) {
             out.push(Re::Star(Box::new(x.clone())));
-            out.push(Re::Plus(Box::new(x.clone())));
             out.push(Re::Opt(Box::new(x.clone())));
-            out.push(Re::Rep12(Box::new(x)));
+            if !small {
+                out.push(Re::Plus(Box::new(x.clone())));
+                out.push(Re::Rep12(Box::new(x)));
+            }
         }
         for l in 1..n - 1 {
             let r = n - 1 - l;
-            for a in asts(l, memo) {
-                for b in asts(r, memo) {
+            for a in asts_over(l, atoms, small, memo) {
+                for b in asts_over(r, atoms, small, memo) {
                     out.push(Re::Cat(Box::new(a.clone()), Box::new(b.clone())));
                     out.push(Re::Alt(Box::new(a.clone()), Box::new(b)));
                 }
@@ -57,6 +59,10 @@ fn asts(n: usize, memo: &mut Vec<Vec<Re>>) -> Vec<Re> {
     }
     memo[n] = out.clone();
     out
+}
+
+fn asts(n: usize, memo: &mut Vec<Vec<Re>>) -> Vec<Re> {
+    asts_over(n, &atoms(), false, memo)
 }
 
 /// set of end positions of matches of `re` starting at `i`
@@ -194,11 +200,15 @@ fn max_size(t: Tier) -> usize {
     t.pick(4, 6)
 }
 
+fn deep_size(t: Tier) -> usize {
+    t.pick(7, 8)
+}
+
 fn spec(t: Tier) -> Spec {
     Spec {
         id: "C17",
         level: "exploration",
-        rule: format!("every regex AST with <= {} nodes over atoms a b / . [ab] [^a], concatenation, alternation, * + ? and {{1,2}} (operands of postfix operators are atoms or groups), prefixed either by the literal \\./ or (ASTs one node smaller) by a floating .* and rendered in each of emacs, posix-extended, grep, posix-basic, ed, sed with that syntax's spelling (ASTs using an operator the syntax lacks are skipped for it); x -regex / -iregex; x three placements of -regextype (directly before, inside a preceding parenthesis, before a parenthesis holding -regex) and two consecutive -regextype options; evaluated by the real find on a tree whose paths are ./NAME for every NAME of <= 3 letters over a,b (b is a directory holding a, b, ab), upper-case variants A aB BA, and compared path by path with whole-string membership in the AST's language (set-of-end-positions matcher; -iregex on case-folded letters). evaluation = (pattern, syntax, primary, placement, path); non-trivial = AST with an operator", max_size(t)),
+        rule: format!("every regex AST with <= {} nodes over atoms a b / . [ab] [^a], concatenation, alternation, * + ? and {{1,2}} (operands of postfix operators are atoms or groups), prefixed either by the literal \\./ or (ASTs one node smaller) by a floating .* and plus every AST of up to {} nodes over a, b with ?, *, concatenation and alternation only; rendered in each of emacs, posix-extended, grep, posix-basic, ed, sed with that syntax's spelling (ASTs using an operator the syntax lacks are skipped for it); x -regex / -iregex; x three placements of -regextype (directly before, inside a preceding parenthesis, before a parenthesis holding -regex) and two consecutive -regextype options; evaluated by the real find on a tree whose paths are ./NAME for every NAME of <= 3 letters over a,b (b is a directory holding a, b, ab), upper-case variants A aB BA, and compared path by path with whole-string membership in the AST's language (set-of-end-positions matcher; -iregex on case-folded letters). evaluation = (pattern, syntax, primary, placement, path); non-trivial = AST with an operator", max_size(t), deep_size(t)),
         bound: json!({"max_ast_nodes": max_size(t), "syntaxes": TYPES.iter().map(|t| t.0).collect::<Vec<_>>(), "placements": ["before","in-preceding-parens","before-parens-holding-regex","two-regextypes"]}),
         assumptions: vec!["'.' and [^a] versus newline are not exercised (no newline in the paths)".into(), "emacs is the default syntax (also checked with no -regextype at all)".into()],
         shards: 0,
@@ -354,6 +364,11 @@ fn run(ctx: &mut Ctx) {
         all.extend(asts(n, &mut memo));
     }
     ctx.rep.count("asts", if ctx.shard == 0 { all.len() as u64 } else { 0 });
+    // deep slice: every AST of exactly deep_size(tier) nodes over the atoms a, b with ?, *, concatenation
+    // and alternation only (e.g. a?(ab)? — a greedy first match that is too short)
+    let mut dm: Vec<Vec<Re>> = vec![];
+    let deep: Vec<Re> = (max_size(ctx.tier) + 1..=deep_size(ctx.tier)).flat_map(|n| asts_over(n, &[Re::Lit(b'a'), Re::Lit(b'b')], true, &mut dm)).collect();
+    ctx.rep.count("asts_deep_slice", if ctx.shard == 0 { deep.len() as u64 } else { 0 });
     let mut job = 0u64;
     for (tname, syn) in TYPES {
         // two ways of covering the leading "./": the literal prefix \./ and a floating .* prefix
@@ -368,6 +383,12 @@ fn run(ctx: &mut Ctx) {
                 if let Some(s) = render(&floating, syn) {
                     rendered.push((floating, s));
                 }
+            }
+        }
+        for r in &deep {
+            let with_slash = Re::Cat(Box::new(Re::Lit(b'/')), Box::new(r.clone()));
+            if let Some(s) = render(&with_slash, syn) {
+                rendered.push((Re::Cat(Box::new(Re::Lit(b'.')), Box::new(with_slash)), format!("\\.{s}")));
             }
         }
         for prim in ["-regex", "-iregex"] {
